@@ -247,7 +247,7 @@ func init() {
 				if tier == "thorough" && sp.Refresh == "manual" && len(sp.Bars) == 2 {
 					b = 2
 				}
-				items = append(items, specItems("C12", sp, b, allStrats, nil, c12Oracle)...)
+				items = append(items, specItemsMixed("C12", sp, b, 1, allStrats, nil, c12Oracle)...)
 			}
 			return items
 		},
